@@ -1,6 +1,8 @@
 """C15 - generated message types carry exactly the generic parameters they use."""
 from . import msgprops
 
+THEOREMS_T = ["c15_translated_visit_path", "c15_translated_each_parameter_once", "c15_translated_used_unused", "c15_translated_filter_wheres",
+              "c15_translated_kept_bounds_mention_no_other_parameter", "c15_translated_emitters"]
 THEOREMS = ["c15_parameters_are_exactly_those_used", "c15_each_parameter_once", "c15_used_and_unused_partition_the_declared_parameters",
             "c15_only_bounds_over_used_parameters_are_kept", "c15_parameters_mentioned_by_a_bound", "c15_enum_uses_these_lists"]
 
@@ -11,4 +13,5 @@ def check(run, replay=None):
                 "where-predicates and dispatch parameters of every generated type vs the Coq model and vs occurrence computed from the "
                 "signature; L2: generic corpus programs instantiated at concrete types, built, encoded, decoded and dispatched; "
                 "non-trivial = distinct program / operation")
-    return msgprops.check(run, "C15", "Props/C15", THEOREMS, {"c01": True, "c02": True}, replay)
+    return msgprops.check(run, "C15", "Props/C15", THEOREMS, {"c01": True, "c02": True}, replay,
+                          translated=("Props/C15T", THEOREMS_T))
